@@ -49,7 +49,7 @@ ASSUMPTIONS = [
     "PHYLIP and PAML are alignment formats: only equal-length sets are written in them; ragged sets use FASTA, GDE and JSON",
     "protein sequences use the 20 amino acids, X B Z, '-' and '?' ('*' is rejected by the protein moltype)",
     ".zip is exercised on the read side only (single member archive made by the harness with zipfile), as in the design",
-    "chunks sub-check text excludes '~' (content based encoding detection is a separate root cause, exercised in the roundtrip and variants sub-checks) and uses \\n or \\r\\n line ends only (bare \\r is documented as unsupported by iter_splitlines); chunk_size >= 1",
+    "chunks sub-check text excludes '~' (content based encoding detection is a separate root cause, exercised in the roundtrip and variants sub-checks) and uses \\n or \\r\\n line ends only (bare \\r line ends are not generated); chunk_size >= 1 (0 means 'no data' to file.read)",
     "GenBank locus names are [A-Za-z0-9_.]+ (whitespace delimited LOCUS line)",
     "failures of clauses that read FASTA through the bytes parser while a name contains '>' are reported under one signature .../fasta-bytes-parser[gt-in-name]; failures of clauses that open a file in text mode while a name contains '~{' (the HZ-GB-2312 escape that content based encoding detection reacts to) under .../text-mode-open[hz-escape-in-name]; failures on GenBank files with more than one record under genbank/multi-record-file: these circumstances have their own root causes",
 ]
